@@ -123,6 +123,10 @@ void dlcache_delete(dlcache * cache)
             {
                 dlclose(cache->entries[i].handle);
             }
+            if (cache->entries[i].dl_name != NULL)
+            {
+                free((char *)cache->entries[i].dl_name);
+            }
         }
 
         dlcache_entry_delete(cache->entries);
@@ -137,7 +141,8 @@ void dlcache_add_dl(dlcache * cache, const char * dl_name, void * handle)
         return;
     }
 
-    dlcache_entry_add_dl(cache->entries, cache->size, dl_name, handle);
+    /* the cache outlives the program whose string table the name comes from */
+    dlcache_entry_add_dl(cache->entries, cache->size, strdup(dl_name), handle);
 
     cache->count++;
     dlcache_resize(cache);
